@@ -7,7 +7,7 @@ import subprocess
 ROOT = os.path.dirname(os.path.abspath(__file__))
 SRC = os.path.join(ROOT, "build", "native-src")
 TARGET = os.path.join(ROOT, "build", "native-target")
-ORACLES = {"c14_jet_codes_replay": "jets_native.rs", "c16_policy_sort_replay": "policy_native.rs", "c02_codec_replay": "codec_native.rs"}
+ORACLES = {"c14_jet_codes_replay": "jets_native.rs", "c16_policy_sort_replay": "policy_native.rs", "c02_codec_replay": "codec_native.rs", "c09_cmr_replay": "cmr_native.rs"}
 
 
 def _prepare(repo):
